@@ -55,6 +55,13 @@ def ops01 : List (String × Op) := [
     let c ← optNats j "cdims"
     let cyc ← optCyc j
     .ok (exceptJ sptenmatJ (S.toSptenmat r c cyc))),
+  ("sptenmat_ctor", fun j => do
+    let subs ← field j "subs" >>= asNatMat
+    let vals ← field j "vals" >>= asRats
+    let r ← field j "rdims" >>= asNats
+    let c ← field j "cdims" >>= asNats
+    let ts ← field j "tshape" >>= asNats
+    .ok (exceptJ sptenmatJ (Sptenmat.mkCopy subs vals r c ts))),
   ("sptenmat_to_sptensor", fun j => do
     let M ← field j "M" >>= asSptenmat
     .ok (sparseJ M.toSparse)),
